@@ -15,10 +15,14 @@
                            aliasing enum values (obj_ok), no palette requested with synced=True
      inv                   the four cache-coherence invariants (LemmasInv.v)
      plain_lines / pure_lines   the rendering as a pure function of colours (LemmasPure.v)
-     eko                   = enum_key_is_object, read from ak/ppobj.py on every run *)
+     eko                   = enum_key_is_object, read from ak/ppobj.py on every run
+     jv / pp_lines / pp_obj   (Layout.v) a json-like value and the chunk program the pretty-printer's layout
+                           code gives for it: one line below 200 visible characters, long lists of simple
+                           values wrapped at 150, measured on visible text only *)
 From Coq Require Import ZArith List Bool.
 From AK Require Import Common.Sx Common.Err C10.Sgr C10.SgrLemmas C10.Base gen.C10_Consts C10.Model
-  C10.Lemmas C10.LemmasInv C10.LemmasRun C10.LemmasPure C10.LemmasTop C10.LemmasSub C10.LemmasWit.
+  C10.Lemmas C10.LemmasInv C10.LemmasRun C10.LemmasPure C10.LemmasTop C10.LemmasSub C10.LemmasWit
+  C10.Layout C10.LemmasLayout.
 Import ListNotations.
 Open Scope Z_scope.
 
@@ -325,3 +329,65 @@ Proof.
   vm_compute. reflexivity.
 Qed.
 Print Assumptions same_core_satisfiable.
+
+(* ---- the pretty-printer with its layout code modelled (Layout.v) ---- *)
+(* the chunk program the layout model computes for ANY json-like value (any nesting,
+   any offsets, one-line / wrapped / one-per-line forms) is printed through the
+   top palette only and meets the guards of the theorems above; its texts are
+   ESC-free when the texts of the value (string contents, str() of numbers and
+   of keys) are *)
+Theorem pp_layout_guards : forall fj v,
+  obj_ok (pp_obj fj v) /\ simple_obj (pp_obj fj v) /\ (forall fts, jv_noesc v -> obj_noesc fts (pp_obj fj v)).
+Proof. intros fj v. split; [apply pp_obj_ok_l|]. split; [apply pp_obj_simple_l|]. intros fts. apply pp_obj_noesc_l. Qed.
+Print Assumptions pp_layout_guards.
+
+(* first clause of the property for pretty-printer results, layout included: any
+   rendering of a value (any history, configuration, way of passing the palette,
+   way of consuming) with the escape sequences removed is the no_color rendering
+   of the value after any other history; the layout -- pp_lines, a function of
+   the value and the format alone -- is the same in both *)
+Theorem pp_strip_layout : forall fts w1 w2 fj v copt1 copt2 nc pa1 pa2 mode1 mode2 ids1 ids2 w1' w2' outs1 outs2 t1 t2,
+  reach fts w1 -> reach fts w2 -> jv_noesc v -> pa1 <> PSynced -> pa2 <> PSynced ->
+  step eko fts w1 (ORender (pp_obj fj v) copt1 nc pa1 mode1 ids1) = Ok (w1', outs1) ->
+  step eko fts w2 (ORender (pp_obj fj v) copt2 true pa2 mode2 ids2) = Ok (w2', outs2) ->
+  In t1 outs1 -> In t2 outs2 -> strip t1 = t2 /\ no_esc t2.
+Proof.
+  intros fts w1 w2 fj v copt1 copt2 nc pa1 pa2 mode1 mode2 ids1 ids2 w1' w2' outs1 outs2 t1 t2 H1 H2 Hv.
+  exact (strip_layout fts w1 w2 (pp_obj fj v) copt1 copt2 nc pa1 pa2 mode1 mode2 ids1 ids2 w1' w2' outs1 outs2 t1 t2
+           H1 H2 (pp_obj_ok_l fj v) (pp_obj_noesc_l fts fj v Hv)).
+Qed.
+Print Assumptions pp_strip_layout.
+
+(* closed forms: the text of a pretty-printed value is a formula of the value, the
+   format and -- in colour -- the state of the configuration in force; nothing else *)
+Theorem pp_closed_form : forall fts w fj v copt nc pa mode ids w' outs,
+  reach fts w -> pa <> PSynced ->
+  step eko fts w (ORender (pp_obj fj v) copt nc pa mode ids) = Ok (w', outs) ->
+  outs = texts_of mode
+           (if nc then plain_lines fts (pp_lines fj v)
+            else pure_lines fts (top_colors (match pa with PObj c => conf_of w c | _ => conf_in_force w copt end) pp_cls)
+                            (fun _ => []) (pp_lines fj v)).
+Proof.
+  intros fts w fj v copt nc pa mode ids w' outs H Hpa Hs. destruct nc.
+  - exact (no_color_closed_form fts w (pp_obj fj v) copt pa mode ids w' outs H (pp_obj_ok_l fj v) Hpa Hs).
+  - exact (single_palette_closed_form fts w (pp_obj fj v) copt pa mode ids w' outs H (pp_obj_ok_l fj v) (pp_obj_simple_l fj v) Hpa Hs).
+Qed.
+Print Assumptions pp_closed_form.
+
+(* the layout model at its thresholds: 16 ten-digit numbers measure 192 < 200 and stay on
+   one line, 17 measure 204 and are wrapped -- 12 numbers fill a line (2 + 120 + 22 = 144,
+   the next one would give 156 > 150); nested: the wrapped list sits at offset 2 *)
+Example pp_layout_thresholds :
+  let n := JNum [49; 50; 51; 52; 53; 54; 55; 56; 57; 48] in
+  let v := JD [KStr [97]; KRaw [55]] [JL (repeat n 20); JL [JKw 0; JStr [120]; JEmptyD]] in
+  jv_noesc v /\
+  map items_len (pp_lines false (JL (repeat n 16))) = [192%nat] /\
+  map items_len (pp_lines false (JL (repeat n 17))) = [1%nat; 145%nat; 60%nat; 1%nat] /\
+  map items_len (pp_lines true v) = [1%nat; 8%nat; 147%nat; 98%nat; 4%nat; 20%nat; 1%nat].
+Proof.
+  cbv zeta. split.
+  - vm_compute. repeat split; try (intros H; repeat (destruct H as [H|H]; [discriminate|]); exact H).
+    repeat constructor; intros H; repeat (destruct H as [H|H]; [discriminate|]); exact H.
+  - split; [vm_compute; reflexivity|]. split; vm_compute; reflexivity.
+Qed.
+Print Assumptions pp_layout_thresholds.
